@@ -5,6 +5,7 @@ import (
 	"go/token"
 	"go/types"
 	"math"
+	"sort"
 	"strings"
 	"unicode/utf8"
 
@@ -210,7 +211,7 @@ func (r *Run) convert(v Value, from, to types.Type) Value {
 				return x
 			case *Term:
 				if !x.IsConst() {
-					panic(engineErr("symbolic integer converted to float"))
+					x = r.ctx.BV(x.Sort.W, r.concretize(x, 64, "integer converted to float"))
 				}
 				_, fsigned, _ := isIntType(from)
 				if fsigned {
@@ -231,9 +232,7 @@ func (r *Run) convert(v Value, from, to types.Type) Value {
 					}
 					return &StrV{s: sb.String()}
 				}
-				if x.sym != nil {
-					panic(engineErr("string of a symbolic-length slice"))
-				}
+				x = r.concreteSlice(x)
 				bs := make([]*Term, x.len)
 				for i := range bs {
 					bs[i] = r.sliceElem(x, i).(*Term)
@@ -306,11 +305,21 @@ func (r *Run) sliceLenTerm(s SliceV) *Term {
 	return r.intTerm(int64(s.len))
 }
 
-func (r *Run) byteSliceTerms(v Value) []*Term {
-	s := v.(SliceV)
-	if s.sym != nil {
-		panic(engineErr("bytes of a symbolic-length slice"))
+// concreteSlice decides the length of a symbolic-length slice whose whole
+// contents are needed (forks if several values are still feasible).
+func (r *Run) concreteSlice(s SliceV) SliceV {
+	if s.sym == nil {
+		return s
 	}
+	l := int(r.concretize(s.sym, 4096, "length of a symbolic-length slice"))
+	if l > 0 {
+		r.materialise(s, l-1)
+	}
+	return SliceV{base: s.base, off: s.off, len: l, cap: l}
+}
+
+func (r *Run) byteSliceTerms(v Value) []*Term {
+	s := r.concreteSlice(v.(SliceV))
 	out := make([]*Term, s.len)
 	if s.len == 0 {
 		return out
@@ -340,8 +349,18 @@ func (r *Run) execMakeSlice(fr *Frame, x *ssa.MakeSlice) {
 	ct = r.ctx.Resize(ct, 64, cs)
 	if lt.IsConst() && ct.IsConst() {
 		n, cp := signExtend(lt.CV, 64), signExtend(ct.CV, 64)
-		if n < 0 || cp < n || n > maxConcreteAlloc {
+		if n < 0 || cp < n || n > 1<<44 {
 			panic(goPanic{kind: "makeslice", msg: "makeslice: len out of range"})
+		}
+		r.noteMake(ct)
+		if n > maxConcreteAlloc && n == cp {
+			// a huge but legal allocation: keep the length as a (constant) term
+			// and materialise elements on demand
+			s := r.newSlice(elem, nil, 16)
+			s.len = 16
+			s.sym = lt
+			r.set(fr, x, s)
+			return
 		}
 		s := r.newSlice(elem, nil, int(cp))
 		s.len = int(n)
@@ -354,7 +373,54 @@ func (r *Run) execMakeSlice(fr *Frame, x *ssa.MakeSlice) {
 	r.set(fr, x, r.makeSymSlice(elem, lt))
 }
 
-const maxConcreteAlloc = 1 << 24
+const maxConcreteAlloc = 1 << 16
+
+// noteMake records the lengths passed to make, per call site (distinct
+// terms only; constants below 4096 are ignored).
+func (r *Run) noteMake(n *Term) {
+	if n.IsConst() && signExtend(n.CV, 64) <= 4096 {
+		return
+	}
+	site := ""
+	if r.cur != nil && len(r.cur.stack) > 0 {
+		site = r.cur.stack[len(r.cur.stack)-1].info.name
+	}
+	if r.makeSites == nil {
+		r.makeSites = map[string]map[int]*Term{}
+	}
+	m := r.makeSites[site]
+	if m == nil {
+		m = map[int]*Term{}
+		r.makeSites[site] = m
+	}
+	m[n.id] = n
+}
+
+// maxMakeTerm returns the maximum of the recorded lengths at the selected sites.
+func (r *Run) maxMakeTerm(sel func(site string) bool) *Term {
+	c := r.ctx
+	acc := c.BV(64, 0)
+	names := make([]string, 0, len(r.makeSites))
+	for s := range r.makeSites {
+		names = append(names, s)
+	}
+	sort.Strings(names)
+	for _, s := range names {
+		if !sel(s) {
+			continue
+		}
+		ids := make([]int, 0, len(r.makeSites[s]))
+		for id := range r.makeSites[s] {
+			ids = append(ids, id)
+		}
+		sort.Ints(ids)
+		for _, id := range ids {
+			n := r.makeSites[s][id]
+			acc = c.Ite(c.BVSlt(acc, n), n, acc)
+		}
+	}
+	return acc
+}
 
 // makeSymSlice implements make([]T, n) for a symbolic n: a panic path for
 // n < 0 (or beyond the allocation limit), exact case split for 0..k, and one
@@ -365,19 +431,67 @@ func (r *Run) makeSymSlice(elem types.Type, n *Term) SliceV {
 	if r.branch(neg) {
 		panic(goPanic{kind: "makeslice", msg: "makeslice: len out of range"})
 	}
+	r.noteMake(n)
 	k := r.eng.symLenK
-	for i := 0; i <= k; i++ {
-		if r.branch(c.Eq(n, c.BV(64, uint64(i)))) {
-			s := r.newSlice(elem, nil, i)
-			s.len = i
-			return s
-		}
+	if v, ok := r.eng.bounds["symLenK"]; ok {
+		k = v
 	}
+	// one decision: either n > k, or one of the feasible exact values 0..k
+	d := r.decide(func() []int64 {
+		var alts []int64
+		small := c.BVSle(n, c.BV(64, uint64(k)))
+		var block []*Term
+		for {
+			q := append([]*Term{small}, block...)
+			if r.check(q...) != Sat {
+				break
+			}
+			m, err := r.solver.ModelValues(c.varsOf(n))
+			if err != nil {
+				panic(engineErr("model: %v", err))
+			}
+			v := evalBV(n, m)
+			alts = append(alts, int64(v))
+			block = append(block, c.Not(c.Eq(n, c.BV(64, v))))
+		}
+		if r.check(c.Not(small)) == Sat {
+			alts = append(alts, -1)
+		}
+		return alts
+	})
+	if d >= 0 {
+		r.addPC(c.Eq(n, c.BV(64, uint64(d))))
+		s := r.newSlice(elem, nil, int(d))
+		s.len = int(d)
+		return s
+	}
+	r.addPC(c.BVSlt(c.BV(64, uint64(k)), n))
 	// n > k
 	s := r.newSlice(elem, nil, k+1)
 	s.len = k + 1
 	s.sym = n
 	return s
+}
+
+// materialise makes sure element i of a symbolic-length slice exists in its
+// backing array (elements beyond the initially materialised ones are created
+// on demand; the loop that touches them forks at its own length comparison and
+// is bounded by the path and step budgets).
+func (r *Run) materialise(s SliceV, i int) {
+	arr := r.sliceArr(s)
+	need := s.off + i + 1
+	if need > len(arr.e) {
+		if need > r.eng.maxSymElems {
+			panic(engineErr("unwinding bound: element %d of a symbolic-length slice", i))
+		}
+		et := s.base.obj.typ.Underlying().(*types.Array).Elem()
+		if len(s.base.path) != 0 {
+			panic(engineErr("symbolic-length slice inside an aggregate"))
+		}
+		for len(arr.e) < need {
+			arr.e = append(arr.e, r.zero(et))
+		}
+	}
 }
 
 func (r *Run) boundsPanic(kind, msg string) {
@@ -407,11 +521,8 @@ func (r *Run) checkIndex(it *Term, signed bool, n int, symN *Term) int {
 		r.boundsPanic("index", "index out of range (symbolic index)")
 	}
 	if i64.IsConst() {
-		i := int(signExtend(i64.CV, 64))
-		if i >= n {
-			panic(engineErr("unwinding bound: element %d of a symbolic-length slice (materialised %d)", i, n))
-		}
-		return i
+		// in bounds of the true (symbolic) length; the caller materialises the element
+		return int(signExtend(i64.CV, 64))
 	}
 	if symN != nil {
 		panic(engineErr("symbolic index into symbolic-length slice"))
@@ -426,6 +537,9 @@ func (r *Run) execIndexAddr(fr *Frame, x *ssa.IndexAddr) {
 	switch b := r.get(fr, x.X).(type) {
 	case SliceV:
 		i := r.checkIndex(it, signed, b.len, b.sym)
+		if b.sym != nil {
+			r.materialise(b, i)
+		}
 		r.set(fr, x, b.base.child(b.off+i))
 	case PtrV:
 		if b.IsNil() {
@@ -561,23 +675,31 @@ func (r *Run) sliceOpSym(s SliceV, lo, hi *Term, hasLo, hasHi, hasMax bool) Slic
 		}
 		if hi.IsConst() {
 			h := int(signExtend(hi.CV, 64))
-			if h <= s.len {
-				return SliceV{base: s.base, off: s.off + l, len: h - l, cap: h - l}
+			if h > 0 {
+				r.materialise(s, h-1)
 			}
-			panic(engineErr("unwinding bound: slice [:%d] of a symbolic-length slice (materialised %d)", h, s.len))
+			return SliceV{base: s.base, off: s.off + l, len: h - l, cap: h - l}
 		}
 		if hi == s.sym {
-			if l > s.len {
-				panic(engineErr("unwinding bound: slice [%d:] of a symbolic-length slice", l))
-			}
-			return SliceV{base: s.base, off: s.off + l, len: s.len - l, cap: s.len - l, sym: c.BVSub(s.sym, c.BV(64, uint64(l)))}
+			return r.symTail(s, l)
 		}
 		panic(engineErr("symbolic high bound on symbolic-length slice"))
 	}
-	if l > s.len {
-		panic(engineErr("unwinding bound: slice [%d:] of a symbolic-length slice", l))
+	// s[l:]: l <= true length required
+	if !r.branch(c.BVSle(c.BV(64, uint64(l)), s.sym)) {
+		r.boundsPanic("slice", "slice bounds out of range")
 	}
-	return SliceV{base: s.base, off: s.off + l, len: s.len - l, cap: s.len - l, sym: c.BVSub(s.sym, c.BV(64, uint64(l)))}
+	return r.symTail(s, l)
+}
+
+// symTail returns s[l:] of a symbolic-length slice.
+func (r *Run) symTail(s SliceV, l int) SliceV {
+	c := r.ctx
+	nl := s.len - l
+	if nl < 0 {
+		nl = 0
+	}
+	return SliceV{base: s.base, off: s.off + l, len: nl, cap: nl, sym: c.BVSub(s.sym, c.BV(64, uint64(l)))}
 }
 
 // ---------------------------------------------------------------- maps
@@ -849,6 +971,7 @@ func (r *Run) callBuiltin(g *Goroutine, name string, args []Value, call *ssa.Cal
 		if g.pending != nil {
 			p := g.pending
 			g.pending = nil
+			r.notes = append(r.notes, "recovered panic: "+p.p.msg+"\n"+p.stack)
 			return r.panicValue(p.p)
 		}
 		return IfaceV{}
@@ -897,9 +1020,7 @@ func (r *Run) builtinAppend(args []Value, call *ssa.CallCommon) Value {
 	var add []Value
 	switch x := args[1].(type) {
 	case SliceV:
-		if x.sym != nil {
-			panic(engineErr("append of symbolic-length slice"))
-		}
+		x = r.concreteSlice(x)
 		for i := 0; i < x.len; i++ {
 			add = append(add, copyVal(r.sliceElem(x, i)))
 		}
@@ -942,10 +1063,10 @@ func (r *Run) builtinCopy(args []Value) Value {
 	var srcSym *Term
 	switch x := args[1].(type) {
 	case SliceV:
+		x = r.concreteSlice(x)
 		for i := 0; i < x.len; i++ {
 			src = append(src, copyVal(r.sliceElem(x, i)))
 		}
-		srcSym = x.sym
 	case *StrV:
 		for _, b := range r.strBytes(x) {
 			src = append(src, b)
@@ -967,22 +1088,29 @@ func (r *Run) builtinCopy(args []Value) Value {
 	if srcSym != nil {
 		panic(engineErr("copy from a symbolic-length slice"))
 	}
-	// dst has symbolic length L > dst.len-1. n = min(L, len(src)).
+	// dst has symbolic length L (> dst.len-1); n = min(L, len(src)).
 	c := r.ctx
 	ns := len(src)
-	if ns <= dst.len {
-		// L >= dst.len >= ns: copies all of src
-		arr := r.sliceArr(dst)
-		for i := 0; i < ns; i++ {
-			arr.e[dst.off+i] = src[i]
+	if ns > dst.len {
+		// is L >= ns? otherwise L is one of dst.len..ns-1: fork on its value
+		if !r.branch(c.BVSle(c.BV(64, uint64(ns)), dst.sym)) {
+			l := int(r.concretize(dst.sym, 4096, "length of a symbolic-length destination"))
+			r.materialise(dst, l-1)
+			arr := r.sliceArr(dst)
+			for i := 0; i < l; i++ {
+				arr.e[dst.off+i] = src[i]
+			}
+			return r.intTerm(int64(l))
 		}
-		return r.intTerm(int64(ns))
 	}
-	// need to know whether L >= ns
-	if r.branch(c.BVSle(c.BV(64, uint64(ns)), dst.sym)) {
-		panic(engineErr("unwinding bound: copy of %d elements into a symbolic-length slice (materialised %d)", ns, dst.len))
+	if ns > 0 {
+		r.materialise(dst, ns-1)
 	}
-	panic(engineErr("unwinding bound: copy into symbolic-length slice shorter than source"))
+	arr := r.sliceArr(dst)
+	for i := 0; i < ns; i++ {
+		arr.e[dst.off+i] = src[i]
+	}
+	return r.intTerm(int64(ns))
 }
 
 var _ = math.MaxInt64
